@@ -775,6 +775,19 @@ func versionGrid(tier string) {
 							s.do(s.frame(st, dotu), errAns(strings.Repeat("F", 100), 3))
 						}
 					}
+					// renegotiations with other dialects on the same connection: down to plain 9P2000 and up again
+					if rng.Intn(2) == 0 {
+						m2 := eff
+						if m2 > 8192 {
+							m2 = 8192
+						}
+						for _, v2 := range []string{"9P2000", "9P2000.u", ver, "9P2000.u"} {
+							dotu = s.version(m2, v2, sd == 1)
+							s.do(s.frame(st, dotu), sc)
+							s.do(s.frame(st, dotu), errAns("renegotiated", 9))
+						}
+						stat("srvseq.renegotiated_cells", 1)
+					}
 					s.finish()
 					stat("srvseq.version_cells", 1)
 				}
